@@ -117,6 +117,17 @@ def oracle(ck, tier, deep):
         h, w = case["shape"]
         im = rng.random((h, w))
         row, col = decode_origin(case["origin"], h, w)
+        if it % 3 == 1:
+            # weights that blank out a whole ring of radii about the origin (radii without data, flagged invalid): whatever a regulariser
+            # fills in there is in the image and in the distributions alike
+            yy_, xx_ = np.indices((h, w))
+            rr_ = np.hypot(yy_ - row, xx_ - col)
+            a_ = float(rng.uniform(2, 6))
+            wt_ = np.ones((h, w)) if case["weights"] is None else case["weights"].copy()
+            wt_[(rr_ > a_) & (rr_ < a_ + 2.6)] = 0
+            case = dict(case, weights=wt_)
+            if case["direction"] == "inverse" and case["reg"] in (None, "pos"):
+                case["reg"] = [("L2", 2.0), ("diff", 1.0), None][it % 9 // 3]
         ck.count(("S.rbasex", case["odd"], case["order"], case["direction"], str(case["reg"])[:6], case["weights"] is None), suite="S.outputs")
         rep = show(case)
         sig = dict(site="rbasex_transform")
